@@ -4,7 +4,7 @@ SPEC = {
     "level": "exploration",
     "units": [
         {"name": "interop", "pkg": O4, "kind": "rapid", "run": "^TestVerifC06Interop$",
-         "quick": {"checks": 400, "shards": 4, "timeout": 300},
+         "quick": {"checks": 600, "shards": 8, "timeout": 300},
          "thorough": {"checks": 2500, "shards": 16, "timeout": 3000}},
         {"name": "long-session", "pkg": O4, "kind": "plain", "run": "^TestVerifC06LongSession$",
          "quick": {"shards": 2, "timeout": 300}, "thorough": {"shards": 2, "timeout": 1500}},
